@@ -59,6 +59,7 @@ class Cfg:
         self.service = "cpt"        # cpt | wp
         self.token = 1001
         self.iam = False            # hand the peers' I-Am to each other's device info cache first
+        self.extra = []             # further requests submitted at the same instant: [(behaviour, service, req_size, rsp_size)]
         self.__dict__.update(kw)
 
     def describe(self):
@@ -116,8 +117,18 @@ def run_scenario(cfg, plan=None, extra_after=None, max_steps=400000):
             res.submit_error = err
         res.invoke = getattr(req, "apduInvokeID", None)
         res.t0 = t0
+        res.extra_tokens = []
+        for k, (beh, svc, rq, rp) in enumerate(cfg.extra):
+            tok = cfg.token + 1 + k
+            server.app.behaviour[tok] = (beh, rp, 0.0)
+            r2 = client.cpt_request(2, tok, rq) if svc == "cpt" else client.wp_request(2, tok)
+            try:
+                client.send(r2, tok)
+                res.extra_tokens.append(tok)
+            except Exception as err:
+                res.submit_error = err
         injected = sum(a[1] for a in (plan.table.values() if plan else []) if isinstance(a, tuple) and a[0] == DELAY)
-        bound = cfg.bound(injected)
+        bound = cfg.bound(injected) * (1 + len(cfg.extra))
         res.bound = bound
         CLOCK.drive(until=t0 + bound, max_steps=max_steps)
         res.t_bound_end = CLOCK.now
@@ -167,22 +178,29 @@ def check_c04(res, report):
         if outs:
             report("submission-refused-and-outcome-delivered", {"error": repr(res.submit_error)})
         return
-    if len(outs) == 0:
-        report("no-outcome-delivered", {"frames": len(res.lan.frames), "swallowed": CLOCK.swallowed.records[:2],
-                                        "escapes": res.lan.escapes[:2]})
+    expected = 1 + len(getattr(res, "extra_tokens", []))
+    if len(outs) < expected:
+        key = "no-outcome-delivered" if expected == 1 else "queued-request-without-outcome" if cfg.path == "iocb" else "concurrent-request-without-outcome"
+        report(key, {"frames": len(res.lan.frames), "outcomes": len(outs), "requests": expected, "swallowed": CLOCK.swallowed.records[:2],
+                     "escapes": res.lan.escapes[:2]})
         return
-    if len(outs) > 1:
-        report("outcome-delivered-more-than-once", {"outcomes": [(o["t"] - res.t0, o.get("outcome")) for o in outs]})
+    if len(outs) > expected:
+        report("outcome-delivered-more-than-once", {"outcomes": [(o["t"] - res.t0, o.get("outcome")) for o in outs], "requests": expected})
         return
-    o = outs[0]
+    if cfg.path == "iocb" and expected > 1:
+        toks = sorted(o.get("token") for o in outs)
+        if toks != sorted([cfg.token] + res.extra_tokens):
+            report("outcome-delivered-more-than-once", {"tokens": toks})
+            return
+    o = outs[-1]
     t_out = o["t"]
     if t_out - res.t0 > res.bound + 1e-6:
         report("outcome-later-than-bound", {"after": t_out - res.t0, "bound": res.bound})
     if cfg.path == "iocb":
         # the direct confirmation events of an IOApp are recorded too: exactly one as well
         confs = [e for e in res.events if e["who"] == "client" and e["ev"] == "confirmation"]
-        if len(confs) > 1:
-            report("confirmation-delivered-more-than-once", {"n": len(confs)})
+        if len(confs) > expected:
+            report("confirmation-delivered-more-than-once", {"n": len(confs), "requests": expected})
     # residue on the requesting stack (and, at the horizon, anywhere)
     live = transaction_census()
     if live:
@@ -207,7 +225,7 @@ def check_c04(res, report):
             ap = d.get("apci")
             if ap and ap.get("invoke") == res.invoke and ap["type"] in (W.CONFIRMED, W.SEGMENT_ACK, W.ABORT):
                 late.append((rec["t"] - t_out, ap["type"]))
-    if late:
+    if late and expected == 1:
         report("requester-sends-for-finished-transaction", {"late_frames": late[:4]})
 
 
